@@ -270,3 +270,15 @@ have blt : b < size (a :: l).
   by move: E; rewrite /draw; case: t => // c t; case: ifP => // clt [<- _].
 by apply: (@mem_In _ (a :: l)); rewrite mem_nth.
 Qed.
+
+(* random.shuffle keeps the length and introduces no new element (stdlib-flavoured, for Proofs/ShiftProofs.v) *)
+Lemma pyshuffle_inv (rr : seq nat) t rr' t' : pyshuffle rr t = Ok (rr', t') ->
+  length rr' = length rr /\ forall i, List.In i rr' -> List.In i rr.
+Proof.
+move=> /(pyshuffle_is_rearrangement 0) [sg [psg -> _]]; split.
+  by change (size [seq nth 0 rr i | i <- sg] = size rr); rewrite size_map (perm_size psg) size_iota.
+move=> i /(@List.in_map_iff) [j [<- jin]].
+apply: mem_In; apply: mem_nth.
+have : j \in sg by elim: (sg) jin => // a s IH /= [->|/IH H]; rewrite inE ?eqxx // H orbT.
+by rewrite (perm_mem psg) mem_iota add0n.
+Qed.
